@@ -302,6 +302,11 @@ impl FetchState {
     {
         match refs_at {
             Some(refs_at) => {
+                // N.b. the announced remotes are not of our choosing: ignore the blocked ones.
+                let refs_at = refs_at
+                    .into_iter()
+                    .filter(|r| !handle.is_blocked(&r.remote))
+                    .collect::<Vec<_>>();
                 let sigrefs_at = stage::SigrefsAt {
                     remote,
                     delegates: delegates.clone(),
